@@ -281,13 +281,15 @@ def main(prop, tier, seed):
             if thorough:
                 exhaustive(run, drv, 4, sizes=(90,), modes=(False,), budget_s=900)
             for i in range(2000 if thorough else 150):
-                random_history(run, drv, run.rng.randint(20, 60), 0.12, 0.05, parallel=(i % 3 == 0))
+                with common.guard(run, f"request history {i}"):
+                    random_history(run, drv, run.rng.randint(20, 60), 0.12, 0.05, parallel=(i % 3 == 0))
             parallel_big(run, drv, 300 if thorough else 30)
         else:
             fault_enumeration(run, drv, 3, (False, True), (False, True))
             crash_enumeration(run, drv, 3 if thorough else 2)
             for i in range(1500 if thorough else 120):
-                random_history(run, drv, run.rng.randint(15, 40), 0.35, 0.2, parallel=(i % 4 == 0))
+                with common.guard(run, f"request history {i}"):
+                    random_history(run, drv, run.rng.randint(15, 40), 0.35, 0.2, parallel=(i % 4 == 0))
             parallel_big(run, drv, 200 if thorough else 20)
     finally:
         drv.close()
